@@ -110,6 +110,22 @@ func init() {
 		}
 		return iface{m.t, fr.i.deepCopy(m.t, m.v, 0)}
 	}
+	// Marshal: only the empty message (every field zero), whose encoding is the empty string
+	externals["google.golang.org/protobuf/proto.Marshal"] = func(fr *frame, args []value) value {
+		m := args[0].(iface)
+		if m.t == nil {
+			return tuple{[]value(nil), iface{}}
+		}
+		pt, isPtr := m.t.Underlying().(*types.Pointer)
+		p, _ := m.v.(*value)
+		if !isPtr || p == nil {
+			return tuple{[]value(nil), iface{}}
+		}
+		if !fr.i.deepEqual(pt.Elem(), *p, zero(pt.Elem()), 0) {
+			panic(unsupported("proto.Marshal of a non-empty message"))
+		}
+		return tuple{[]value{}, iface{}}
+	}
 	externals["google.golang.org/protobuf/proto.Equal"] = func(fr *frame, args []value) value {
 		a, b := args[0].(iface), args[1].(iface)
 		if a.t == nil || b.t == nil {
